@@ -39,7 +39,7 @@ def base_cases(draw):
   specs = []
   for i in range(nplug):
     base = draw(st.integers(0, i - 1)) if i > 0 and draw(st.integers(0, 3)) == 0 else None
-    specs.append({'ctor': 'ok', 'td': 'ok', 'base': base})
+    specs.append({'ctor': 'ok', 'td': 'ok', 'base': base, 'td_kind': draw(st.sampled_from(['method', 'method', 'method', 'callable']))})
   phases = progs.all_phases(prog)
   ts = None
   if draw(st.integers(0, 2)) == 0:
@@ -56,6 +56,7 @@ def base_cases(draw):
       used = True
     if pl:
       p['plugs'] = pl
+
   if not used and phases:
     phases[-1]['plugs'] = [['a0', 0, True]]
   prog['plugs'] = specs
@@ -302,6 +303,37 @@ def check_unkillable(case):
   return r
 
 
+MONITORED_PROGS = [
+    # (description, nodes): the monitored phase is the only user of plug 0 / shares it / uses two plugs, one by placeholder
+    ('only-user', [dict(progs.phase(1), plugs=[['a0', 0, True]], monitored=True)]),
+    ('shared', [dict(progs.phase(1), plugs=[['a0', 0, True]]), dict(progs.phase(2), plugs=[['a0', 0, True]], monitored=True)]),
+    ('two-plugs', [dict(progs.phase(1), plugs=[['a0', 0, True], ['a1', 1, True, 'ph']], monitored=True), dict(progs.phase(2), plugs=[['b', 1, True]])]),
+    ('not-passed', [dict(progs.phase(1), plugs=[['a0', 0, False]], monitored=True)]),
+]
+
+
+def check_monitored(i):
+  """A phase wrapped by openhtf.core.monitors.monitors() still requests its plugs: they are constructed once, handed to the
+  body under the requested names, torn down once, and the run passes."""
+  r = CaseResult()
+  name, nodes = MONITORED_PROGS[i]
+  prog = progs.program(copy.deepcopy(nodes))
+  prog['plugs'] = [{'ctor': 'ok', 'td': 'ok', 'base': None}, {'ctor': 'ok', 'td': 'ok', 'base': None}]
+  prog['opts']['callbacks'] = [0]
+  obs = run(prog)
+  if obs.record is None:
+    r.bad('C08/monitored/no-record', '%s: execute() raised %r' % (name, obs.exc))
+    return r
+  if obs.record['outcome'] != 'PASS':
+    r.bad('C08/monitored/outcome-%s' % obs.record['outcome'], '%s: a passing phase that requests plugs and is wrapped by a monitor: outcome %s, phases %r' % (
+        name, obs.record['outcome'], [(p['name'], p['outcome'], p['result']) for p in obs.record['phases']]))
+  for sig, detail in lifecycle_violations(prog, obs):
+    r.bad(sig.replace('C08/', 'C08/monitored/'), '%s: %s' % (name, detail))
+  r.nontrivial = True
+  r.classes = ['monitored-phase', name]
+  return r
+
+
 def htf_plug_manager():
   import openhtf.plugs as plugs_  # pylint: disable=g-import-not-at-top
   return plugs_.PlugManager
@@ -312,6 +344,7 @@ def plan(tier, seed):
   jobs = [{'kind': 'hyp', 'name': 'hyp%d' % i, 'hseed': seed * 1000 + i, 'n': n} for i in range(16)]
   jobs.append({'kind': 'unkillable', 'name': 'unkillable'})
   jobs.append({'kind': 'late', 'name': 'late'})
+  jobs.append({'kind': 'monitored', 'name': 'monitored'})
   return jobs
 
 
@@ -333,6 +366,14 @@ def run_job(job, acct):
             for sig, detail in r.violations:
               (acct.known if sig in known else acct.violation)(sig, case, detail)
     acct.exhaustive_parts.append('unkillable tearDown: all subsets of hanging plugs for 1-3 plugs x {phase passes, phase raises} (virtual time)')
+    return
+  if job['kind'] == 'monitored':
+    for i in range(len(MONITORED_PROGS)):
+      r = check_monitored(i)
+      case = {'monitored': i}
+      acct.case(case, r.nontrivial, r.classes)
+      for sig, detail in r.violations:
+        (acct.known if sig in known else acct.violation)(sig, case, detail)
     return
   if job['kind'] == 'late':
     # a tearDown that returns while it is being abandoned: the executor is stalled (descheduled for 2 ms) at every
@@ -365,6 +406,8 @@ def run_job(job, acct):
 
 
 def replay(case):
+  if 'monitored' in case:
+    return check_monitored(case['monitored']).violations
   if 'unkillable' in case:
     return check_unkillable(case).violations
   return check1(case).violations
